@@ -34,7 +34,7 @@ REGIMES = ("two-sided", "lower", "upper", "far-tail", "asymmetric")
 def cells(tier, seed):
     out = []
     Rs = (1, 3) if tier == "quick" else (1, 2, 4)
-    reps = 1 if tier == "quick" else 4
+    reps = 1 if tier == "quick" else 8
     for mk in ("measure", "pdf"):
         for R in Rs:
             for reg in REGIMES:
